@@ -59,10 +59,10 @@ HALF2 = "9223372036854775807"    # 2 * HALF2 = 2^64 - 2
 P62 = "4611686018427387904"      # 2^62: 4 * P62 wraps to exactly 0
 
 
-def cfg(name, NT, OpsPer, Cap, sizes, inits, kinds, poison=0, maxel=8, nk=2, scale="1"):
+def cfg(name, NT, OpsPer, Cap, sizes, inits, kinds, poison=0, maxel=8, nk=2, scale="1", cb=False, waits=False):
     return dict(name=name,
                 consts=dict(NT=NT, OpsPer=OpsPer, NK=nk, Cap=Cap, MaxEl=maxel, MaxPoison=poison,
-                            Scale='"%s"' % scale),
+                            Scale='"%s"' % scale, Callback=cb, Waits=waits),
                 defs=dict(Sizes=sizes, InitLists=inits, OpKinds=kinds))
 
 
@@ -86,6 +86,10 @@ def configs(tier):
                 cfg("seqmax", 1, 3, 3, "<<1,2,3>>", "{<<>>, <<<<1,2>>>>}", PGDS, nk=3, scale=MAX3),
                 cfg("c2x2", 2, 2, 2, "<<1,2>>", "{<<>>, <<<<1,1>>>>, <<<<2,1>>,<<1,1>>>>}", ALL, poison=1),
                 cfg("c3x1", 3, 1, 3, "<<1,2>>", "{<<>>, <<<<1,1>>>>, <<<<2,2>>,<<1,1>>>>}", ALL, poison=1),
+                # cache WithDeleteCallback, the callback is a yield point inside the locked section; calls
+                # started while another one is inside its locked section must wait for the mutex
+                cfg("cbw2", 2, 2, 2, "<<1,2>>", "{<<<<2,1>>,<<1,1>>>>}", PGD, nk=3, cb=True, waits=True),
+                cfg("cbw3", 3, 1, 2, "<<1,2>>", "{<<<<2,1>>,<<1,1>>>>}", PGDL, nk=3, cb=True, waits=True),
             ]
         return [
             cfg("seq4", 1, 4, 2, "<<1,2,3>>", "{<<>>}", ALL, poison=1),
@@ -126,13 +130,13 @@ def configs(tier):
 
 FREE = {
     # (two batches each: plain sizes, and sizes/capacity scaled so that the capacity is math.MaxUint64)
-    "quick": [dict(traces=300, nt=3, ops=3, rounds=2, cap=2, sizes=[1, 1, 2], nk=3, poison=True, scale="1",
+    "quick": [dict(traces=300, nt=3, ops=3, rounds=2, cap=2, sizes=[1, 1, 2], nk=3, poison=True, scale="1", cb=1,
                    kinds=["Put", "Put", "Get", "Del", "Len", "Size"]),
-              dict(traces=100, nt=3, ops=3, rounds=2, cap=3, sizes=[1, 1, 2, 3], nk=3, poison=True, scale=MAX3,
+              dict(traces=100, nt=3, ops=3, rounds=2, cap=3, sizes=[1, 1, 2, 3], nk=3, poison=True, scale=MAX3, cb=1,
                    kinds=["Put", "Put", "Get", "Del", "Len", "Size"])],
-    "thorough": [dict(traces=9000, nt=3, ops=4, rounds=3, cap=3, sizes=[1, 1, 2, 3], nk=3, poison=True, scale="1",
+    "thorough": [dict(traces=9000, nt=3, ops=4, rounds=3, cap=3, sizes=[1, 1, 2, 3], nk=3, poison=True, scale="1", cb=1,
                       kinds=["Put", "Put", "Get", "Del", "Len", "Size"]),
-                 dict(traces=3000, nt=3, ops=4, rounds=3, cap=3, sizes=[1, 1, 2, 3], nk=3, poison=True, scale=MAX3,
+                 dict(traces=3000, nt=3, ops=4, rounds=3, cap=3, sizes=[1, 1, 2, 3], nk=3, poison=True, scale=MAX3, cb=1,
                       kinds=["Put", "Put", "Get", "Del", "Len", "Size"])],
 }
 
@@ -153,7 +157,7 @@ ASSUMPTIONS = [
 
 BATCH = 40000        # replayed paths per driver run
 
-RES = {-1: "nf", -3: "err", -7: "blocked", -9: "panic"}
+RES = {-1: "nf", -3: "err", -5: "wait", -7: "blocked", -9: "panic"}
 
 
 def label(act):
@@ -174,11 +178,15 @@ def label(act):
         args = ""
     s = "T%d.%s(%s).%s" % (act.get("t", 0), op, args, act.get("step", "?"))
     res = act.get("res", 0)
-    if act.get("ret") == 1 or res == -7:
+    if act.get("ret") == 1 or res in (-7, -5):
         if op == "Range" and res == 0:
             s += "=" + "".join(str(x) for x in act.get("rr", []))
         else:
             s += "=" + RES.get(res, str(res))
+    if act.get("w"):
+        s += "+T%d.acq" % act["w"]
+        if act.get("wret") == 1:
+            s += "=" + RES.get(act.get("wres"), str(act.get("wres")))
     return s
 
 
